@@ -28,6 +28,8 @@
  *   feed  i s HEX     write HEX into host i's pipe s (o|e), call the handler once
  *   eof   i s         close the write end, call the handler once
  *   drain i s         call the handler until it returns <= 0 (as _rsh_thread's loop does)
+ *   run   i s HEX..   a whole stream at once (the model's runStream): one handler call after each
+ *                     chunk, close, drain, this stream's _flush_output     -> run <th->rc|-> | S:HEX ...
  *   flush i           _flush_output(outbuf, out, th); _flush_output(errbuf, err, th)
  *   xrc HEX           _extract_rc on a copy of the string                   -> <ret> <string after>
  * Answers of feed/eof/drain/flush:  <ncalls> <last ret> <th->rc> | S:HEX S:HEX ...   (S = 1 stdout,
@@ -234,6 +236,15 @@ static int call_handler(thd_t *th, int s)
 
 static int stream_fd(thd_t *th, int s) { return s == 0 ? th->rcmd->fd : th->rcmd->efd; }
 
+/* an op that does not come back is an observable too (e.g. a flush loop that never advances) */
+static void op_timeout(int sig)
+{
+    static const char m[] = "TIMEOUT: relay op did not return\n";
+    (void) sig;
+    (void) !write(2, m, sizeof(m) - 1);
+    _exit(124);
+}
+
 int main(int argc, char **argv)
 {
     char *line = NULL;
@@ -261,9 +272,11 @@ int main(int argc, char **argv)
     if (!real_stderr_file) return 2;
     stderr = real_stderr_file;
     err_init("pdsh");
+    signal(SIGALRM, op_timeout);
 
     while ((got = getline(&line, &cap, stdin)) > 0) {
         char *save = NULL;
+        alarm(getenv("RELAY_OP_TIMEOUT") ? atoi(getenv("RELAY_OP_TIMEOUT")) : 20);
         char *op = strtok_r(line, " \t\r\n", &save);
         if (!op) { ans_str("bad-op"); ans_flush(); continue; }
 
@@ -380,6 +393,37 @@ int main(int argc, char **argv)
                 ans_int(rc);
                 ans_str(" ");
                 ans_int(th->rc);
+                ans_emissions();
+                ans_flush();
+                continue;
+            }
+            if (!strcmp(op, "run")) {
+                /* a whole stream in one op (the model's `runStream`): one handler call after each
+                 * arriving chunk, then the remote side closes, the loop drains, and the stream's
+                 * own _flush_output runs */
+                char *hx;
+                int rc = 1;
+                long calls = 0;
+                if (wfd[s][i] < 0) { ans_str("bad-op"); ans_flush(); continue; }
+                while ((hx = strtok_r(NULL, " \t\r\n", &save))) {
+                    size_t len;
+                    unsigned char *b = unhex(hx, &len);
+                    if (len > 0 && pipe_write_all(wfd[s][i], b, len) < 0) { free(b); rc = -99; break; }
+                    free(b);
+                    rc = call_handler(th, s);
+                    if (rc <= 0) break;          /* cannot happen before the remote side closes */
+                }
+                if (rc == -99 || rc <= 0) { ans_str("bad-op pipe"); ans_flush(); continue; }
+                close(wfd[s][i]);
+                wfd[s][i] = -1;
+                while (rc > 0 && calls++ < 10000000)
+                    rc = call_handler(th, s);
+                if (s == 0)
+                    _flush_output(th->outbuf, (out_f) out, th);
+                else
+                    _flush_output(th->errbuf, (out_f) err, th);
+                ans_str("run ");
+                if (s == 0) ans_int(th->rc); else ans_str("-");
                 ans_emissions();
                 ans_flush();
                 continue;
